@@ -13,7 +13,7 @@ fn no_slow<const MIN_ALIGN: usize>(_b: &Bump<MIN_ALIGN>, _l: Layout) -> Option<N
 unsafe fn reset_drops() { let mut i = 0; while i < 8 { DROPS[i] = 0; i += 1; } }
 
 #[kani::proof]
-#[kani::unwind(8)]
+#[kani::unwind(12)]
 #[kani::stub(Bump::alloc_layout_slow, no_slow)]
 fn k_box_roundtrips() {
     let b = mk_bump::<1>(448);
@@ -40,7 +40,7 @@ fn k_box_roundtrips() {
 }
 
 #[kani::proof]
-#[kani::unwind(8)]
+#[kani::unwind(12)]
 #[kani::stub(Bump::alloc_layout_slow, no_slow)]
 fn k_box_drop_once() {
     unsafe { reset_drops(); }
@@ -68,7 +68,7 @@ fn k_box_drop_once() {
 }
 
 #[kani::proof]
-#[kani::unwind(8)]
+#[kani::unwind(12)]
 #[kani::stub(Bump::alloc_layout_slow, no_slow)]
 fn k_box_slices_arrays() {
     unsafe { reset_drops(); }
@@ -84,6 +84,18 @@ fn k_box_slices_arrays() {
     assert!(wrong.is_err(), "C17 a slice of another length is handed back, not truncated");
     let orig = wrong.err().unwrap();
     assert!(orig.len() == 3 && orig[1] == vals[1]);
+    drop(orig);
+    kani::cover!(true);
+    core::mem::forget(b);
+}
+
+#[kani::proof]
+#[kani::unwind(12)]
+#[kani::stub(Bump::alloc_layout_slow, no_slow)]
+fn k_box_vec_to_boxed_slice() {
+    unsafe { reset_drops(); }
+    let b = mk_bump::<1>(448);
+    let vals: [u8; 3] = kani::any();
     // Vec -> boxed slice keeps elements and ownership (drop once, by the box)
     let mut v: Vec<D> = Vec::with_capacity_in(4, &b);
     v.push(D(0)); v.push(D(1));
@@ -97,12 +109,12 @@ fn k_box_slices_arrays() {
     let fi = Box::from_iter_in(vals.iter().copied(), &b);
     assert!(fi.len() == 3 && fi[2] == vals[2]);
     kani::cover!(true);
-    drop(orig); drop(fi);
+    drop(fi);
     core::mem::forget(b);
 }
 
 #[kani::proof]
-#[kani::unwind(8)]
+#[kani::unwind(12)]
 #[kani::stub(Bump::alloc_layout_slow, no_slow)]
 fn k_box_downcast() {
     let b = mk_bump::<1>(448);
